@@ -247,6 +247,9 @@ impl BuildSystem {
             _ => return Err("Invalid validation library. Use 'zod' or 'none'".into()),
         };
 
+        // From here on files are overwritten: the old cache record no longer describes them
+        GenerationCache::invalidate(&config.output_path);
+
         let mut generator = create_generator(validation);
         let generated_files = generator.generate_models(
             &commands,
